@@ -70,7 +70,9 @@ C01Part(d) ==
            dd == IF sc = 0 THEN data ELSE data @@ [scale |-> [p |-> sc]]
        IN \A ty \in {"f64", "f32"} : \A li \in Levs : \A ki \in 1..3 : EmitStyles("arith", ty, ki, li, dd)
   /\ \A s \in DOMAIN Shapes : \A ty \in {"f64", "f32"} : \A li \in Levs : \A ki \in 1..3 :
-       EmitStyles("arith", ty, ki, li, Shapes[s])
+       /\ EmitStyles("arith", ty, ki, li, Shapes[s])
+       \* ... and through the StatisticsOps trait only (what generic code reaches)
+       /\ \A st \in {"ops", "ops_mean", "ops_append"} : Emit(MeanCase("arith", ty, st, ki, li, Shapes[s], FALSE, "style"))
   \* irregular samples: every value distinct, no symmetry, supplied in no particular order
   /\ \A i \in 1..((ND + 1) \div 2) : \A ty \in {"f64", "f32"} : \A li \in Levs : \A ki \in 1..3 :
        LET n == Pick(700 + i, 11, 5, 60)
@@ -83,6 +85,20 @@ C01Part(d) ==
            tiny == IF ty = "f32" THEN -60 ELSE -500
            data == RandSample(600 + i, 200, 5000, 0) @@ [scale |-> [p |-> IF sg = 1 THEN big ELSE tiny]] IN
        EmitStyles("arith", ty, ki, li, data)
+  \* observations that are exactly zero, and observations whose SQUARE underflows to zero (3 * 2^-600 / 3 * 2^-100)
+  /\ \A ty \in {"f64", "f32"} : \A li \in {8, 12} : \A ki \in 1..3 : \A s \in 1..4 :
+       LET tp == IF ty = "f32" THEN -100 ELSE -600
+           data == CASE s = 1 -> [rle |-> << <<V(0, 0), 3>>, <<V(5, 0), 4>>, <<V(-2, 0), 2>> >>, order |-> "interleave"]
+                     [] s = 2 -> [rle |-> << <<V(3, tp), 2>>, <<V(1, 0), 3>>, <<V(2, 0), 2>> >>, order |-> "interleave"]
+                     [] s = 3 -> [rle |-> << <<V(0, 0), 1>>, <<V(1, 0), 1>> >>, order |-> "asc"]
+                     [] s = 4 -> [rle |-> << <<V(1, 0), 1>>, <<V(0, 0), 1>>, <<V(-1, 0), 1>>, <<V(0, 0), 1>> >>, order |-> "asc"] IN
+       EmitStyles("arith", ty, ki, li, data)
+  \* magnitudes at which every SQUARE leaves the float range (about 5000 * 2^70 in f32, 5000 * 2^520 in f64): the documented
+  \* outcome is an error; an interval, if one is returned, is judged like any other
+  /\ \A ty \in {"f64", "f32"} : \A li \in {8, 12} : \A ki \in 1..3 :
+       LET data == RandSample(650, 20, 5000, 0) @@ [scale |-> [p |-> IF ty = "f32" THEN 70 ELSE 520]] IN
+       \A si \in DOMAIN MeanStyles :
+          Emit(MeanCase("arith", ty, MeanStyles[si], ki, li, data, si = 1, IF si = 1 THEN "base" ELSE "style") @@ [ovf |-> TRUE])
   /\ \A b \in DOMAIN BigNs : \A ty \in {"f64", "f32"} : \A li \in {2, 7, 8, 12, 19} : \A ki \in 1..3 :
        LET n == BigNs[b]
            data == [rle |-> << <<V(-3, -1), n \div 3>>, <<V(5, 0), n \div 3>>, <<V(64, 0), n - 2 * (n \div 3)>> >>,
@@ -94,6 +110,9 @@ C01Part(d) ==
 Probe(n) == IF n % 2 = 0 THEN [rle |-> << <<V(-1, 0), n \div 2>>, <<V(1, 0), n \div 2>> >>, order |-> "interleave"]
             ELSE [rle |-> << <<V(-1, 0), n \div 2>>, <<V(1, 0), n \div 2>>, <<V(0, 0), 1>> >>, order |-> "interleave"]
 NuSel == IF Thorough THEN 1..NNU ELSE (1..120) \cup {i \in 121..NNU : i % 10 = 0} \cup {NNU - 2, NNU - 1, NNU}
+BigCountPart(d) ==
+  \A ty \in {"f64", "f32"} : \A p \in {29, 30, 31} : \A x \in {1, 2} : \A li \in {8, 12, 14} : \A ki \in 1..3 :
+     Emit(MeanCase("arith", ty, "doubling", ki, li, Probe(4), TRUE, "base") @@ [doublings |-> p, extra |-> x])
 C06Part(d) ==
   /\ \A ni \in NuSel : \A li \in 1..NLEV : \A ki \in 1..3 :
        Emit(MeanCase("arith", "f64", "ci", ki, li, Probe(NuOf(ni) + 1), TRUE, "base"))
@@ -101,6 +120,9 @@ C06Part(d) ==
        Emit(MeanCase("arith", "f64", "extend", ki, li, Probe(n), TRUE, "base"))
   /\ \A ni \in {1, 2, 3, 9, 30, 99, 299} : \A li \in 1..NLEV : \A ki \in 1..3 :
        Emit(MeanCase("arith", "f32", "ci", ki, li, Probe(NuOf(ni) + 1), TRUE, "base"))
+  \* states holding more observations than 31 / 32 / 33 bits count (the probe of 4 merged with itself 29 .. 31 times, then
+  \* delivered once or twice more): 4 * (2^p + x) observations, far inside the normal branch
+  /\ BigCountPart(d)
 
 \* levels far outside the tabulated grid (tails of 10^-6 .. 10^-12 on either side) at even degrees of freedom, where the
 \* t distribution function is algebraic and TLC decides the critical value without any table
@@ -217,6 +239,8 @@ C05Part(d) ==
        IN \A li \in Levs : \A ki \in 1..3 :
             /\ Emit(MeanCase(fl, ty, "ci", ki, li, data, TRUE, "base") @@ [aux |-> TRUE])
             /\ Emit(MeanCase(fl, ty, "extend", ki, li, data, FALSE, "style") @@ [aux |-> FALSE])
+            \* ... and through the StatisticsOps trait only (one-shot, fed in bulk, fed one by one)
+            /\ Emit(MeanCase(fl, ty, <<"ops", "ops_mean", "ops_append">>[(i % 3) + 1], ki, li, data, FALSE, "style") @@ [aux |-> FALSE])
   \* the same kind of samples at very large / very small magnitudes (reciprocal-space quantities near the
   \* machine epsilon are still ordinary numbers)
   /\ \A i \in 1..((ND + 3) \div 4) : \A ty \in {"f64", "f32"} : \A sc \in {-1, 1} :
@@ -258,13 +282,26 @@ FoldData(k, n) ==
                    order |-> "interleave"]                                          \* mixed signs, negative total
 FoldNs == IF Thorough THEN <<1000, 8192, 20000, 300000, 1000000>> ELSE <<1000, 8192, 20000, 300000>>
 C09FoldPart(d) ==
-  \A k \in 1..4 : \A ni \in DOMAIN FoldNs : \A ty \in {"f64", "f32"} : \A li \in {8, 14} : \A ki \in 1..3 :
-     \A si \in DOMAIN FoldStyles :
-        Emit(MeanCase("arith", ty, FoldStyles[si], ki, li, FoldData(k, FoldNs[ni]), si = 1, IF si = 1 THEN "base" ELSE "merge"))
+  /\ \A k \in 1..4 : \A ni \in DOMAIN FoldNs : \A ty \in {"f64", "f32"} : \A li \in {8, 14} : \A ki \in 1..3 :
+       \A si \in DOMAIN FoldStyles :
+          Emit(MeanCase("arith", ty, FoldStyles[si], ki, li, FoldData(k, FoldNs[ni]), si = 1, IF si = 1 THEN "base" ELSE "merge"))
+  \* the same histories on data of tiny magnitude (2^-60 in f64, 2^-30 in f32: every partial sum is far below the epsilon
+  \* of the type, none is zero) and of large magnitude (2^40 / 2^20)
+  /\ \A k \in 1..4 : \A ni \in 1..2 : \A ty \in {"f64", "f32"} : \A sg \in {-1, 1} : \A ki \in 1..3 :
+       LET sc == IF sg = -1 THEN (IF ty = "f32" THEN -30 ELSE -60) ELSE (IF ty = "f32" THEN 20 ELSE 40) IN
+       \A si \in DOMAIN FoldStyles :
+          Emit(MeanCase("arith", ty, FoldStyles[si], ki, 8, FoldData(k, FoldNs[ni]) @@ [scale |-> [p |-> sc]], si = 1,
+                        IF si = 1 THEN "base" ELSE "merge") @@ [magnitude |-> IF sg = -1 THEN "tiny" ELSE "large"])
+  \* more observations than a f32 can count (2^24 + 2^20 + 1), in ONE state and as merged partial states
+  /\ \A ki \in 1..3 : \A si \in {1, 5, 7, 8} :
+       LET n == 17825793
+           data == [rle |-> << <<V(-3, -1), n \div 3>>, <<V(5, 0), n \div 3>>, <<V(64, 0), n - 2 * (n \div 3)>> >>, order |-> "interleave"] IN
+       Emit(MeanCase("arith", "f32", IF si = 1 THEN "extend" ELSE FoldStyles[si], ki, 8, data, si = 1, IF si = 1 THEN "base" ELSE "merge")
+            @@ [beyond_f32_count |-> TRUE])
 
 Next == /\ ~done
         /\ done' = TRUE
-        /\ CASE Part = "c01" -> C01Part(done) [] Part = "c06" -> (C06Part(done) /\ UnbalancedUnpaired(done) /\ C06Extreme(done) /\ C06OffGrid(done) /\ OverflowUnpaired(done))
+        /\ CASE Part = "c01" -> (C01Part(done) /\ BigCountPart(done)) [] Part = "c06" -> (C06Part(done) /\ UnbalancedUnpaired(done) /\ C06Extreme(done) /\ C06OffGrid(done) /\ OverflowUnpaired(done))
              [] Part = "c04" -> (C04Part(done) /\ ScaledUnpaired(done) /\ UnbalancedUnpaired(done) /\ OverflowUnpaired(done)) [] Part = "c05" -> C05Part(done)
              [] Part = "designed" -> DesignedPart(done) [] Part = "c09fold" -> C09FoldPart(done)
 Spec == Init /\ [][Next]_done
